@@ -52,6 +52,7 @@ class Merged:
         self.evaluations = 0
         self.nontrivial = set()
         self.samples = []
+        self.sample_kinds = set()
         self.violations = {}  # signature -> dict
         self.counters = {}
         self.maxima = {}
@@ -63,7 +64,15 @@ class Merged:
         self.evaluations += res.get("evaluations", 0)
         self.nontrivial.update(res.get("nontrivial") or [])
         for s in res.get("samples") or []:
-            if len(self.samples) < 4:
+            kind = None
+            if isinstance(s, dict):
+                kind = s.get("mode") or s.get("kind")
+            if kind is not None:
+                if kind in self.sample_kinds or len(self.samples) >= 8:
+                    continue
+                self.sample_kinds.add(kind)
+                self.samples.append(s)
+            elif len(self.samples) < 4:
                 self.samples.append(s)
         for v in res.get("violations") or []:
             self.add_violation(v["signature"], v.get("detail", ""), v.get("replay"), v.get("count", 1))
@@ -194,7 +203,7 @@ def finish(prop, tier, level, merged, rule, assumptions, t0, extra_cov=None, min
         "evaluations": int(merged.evaluations),
         "distinct_nontrivial": int(distinct),
         "rule": rule,
-        "samples": merged.samples[:4] or [{"note": "no sample recorded"}],
+        "samples": merged.samples[:8] or [{"note": "no sample recorded"}],
         "counters": merged.counters,
         "distinct_sets": {k: len(v) for k, v in merged.sets.items()},
         "known_findings_matched": matched,
